@@ -283,7 +283,7 @@ func c18Verify(c *Ctx, dec *ssa.Function) {
 			trues = append(trues, rc)
 		}
 	}
-	r.Floor("C18.floor.verify-rejects", len(falses), 4, "`return false` exits of Verify")
+	r.Floor("C18.floor.verify-rejects", len(falses), 1, "`return false` exits of Verify")
 	var validateFn *ssa.Function
 	var chalTerm *ana.Term
 	for _, g := range gates {
@@ -482,7 +482,7 @@ func c18Hashes(c *Ctx, dec *ssa.Function) {
 	{
 		b := ana.NewBuilder(c.P, h2c)
 		ctr := "slice(obj(alloc<[1]byte>, store(iaddr(self, 0), conv<byte>(ind<+1>(0)))), 0, none)"
-		hist := "obj(call<crypto/sha512.New>, " + hw(glob("suiteString")) + ", " + hw(glob("encodeToCurveDomainSeparatorFront")) + ", " + hw("p0") + ", " + hw("p1") + ", " + hw(ctr) + ", " + hw(glob("encodeToCurveDomainSeparatorBack")) + ", maybe(call<(hash.Hash).Reset>(self)))"
+		hist := "obj(call<crypto/sha512.New>, " + hw(glob("suiteString")) + ", " + hw(glob("encodeToCurveDomainSeparatorFront")) + ", " + hw("p0") + ", " + hw("p1") + ", " + hw(ctr) + ", " + hw(glob("encodeToCurveDomainSeparatorBack")) + ")" // the state at Sum: what was written since the last Reset (ana: clearedByReset)
 		cand := "call<*>(slice(call<(hash.Hash).Sum>(" + hist + ", _), 0, 32))"
 		okLoop := len(edgesMatching(b, "bin<<=>(ind<+1>(0), 255)")) == 1
 		var sumOK, candOK, resetOK bool
